@@ -57,14 +57,22 @@ def main(tier, seed):
     crc7 = _crc7()
     res = core.Result()
 
-    kinds = [bytes, list, bytearray, tuple, lambda m: memoryview(bytes(m)), lambda m: iter(list(m))]
+    kinds = [bytes, list, bytearray, tuple, lambda m: memoryview(bytes(m))]
+
+    class Raised(int):
+        pass
 
     def call(msg, as_list=False):
         # the message is handed over in every container shape the function accepts (rotating), so a defect in how
         # the bytes are consumed cannot hide behind one input type
         res.executions += 1
         k = kinds[(res.executions + (1 if as_list else 0)) % len(kinds)]
-        return crc7(k(msg))
+        arg = k(msg)
+        try:
+            return crc7(arg)
+        except Exception as e:  # noqa
+            res.violation("raises", f"crc7({type(arg).__name__} of length {len(msg)}) raised {type(e).__name__}: {e}", dict(kind="message", message=list(msg)[:64]))
+            return -1
 
     # base case
     if call(b"") != 0:
@@ -205,6 +213,37 @@ def main(tier, seed):
         for d in core.parallel("mc.props.c20", "work", [("e2e3", a) for a in range(256)], seed=seed):
             res.merge(d)
         res.bounds["flat_message_length"] = 3
+
+    # (5) re-used mutable buffers: the checksum depends on the current contents only (navX-style frame buffer)
+    import random as _r
+
+    rng = _r.Random(12345)  # fixed: the explored set does not depend on VERIF_SEED
+    for mk in (bytearray, list):
+        for ln in (1, 2, 7, 17):
+            buf = mk(bytes(ln))
+            for step in range(8 * ln * 2):
+                bit = step % (8 * ln)
+                buf[bit // 8] ^= 1 << (bit % 8)  # in place, same object, same length
+                got = crc7(buf)
+                got2 = crc7(buf)
+                res.executions += 2
+                res.checks += 1
+                if got != serial(bytes(buf)) or got2 != got:
+                    res.violation("stale-result-for-reused-buffer", f"crc7 of a re-used {mk.__name__} after an in-place bit flip = {got}/{got2}, contents {list(buf)} -> {serial(bytes(buf))}", dict(kind="message", message=list(buf)))
+                    break
+    # (6) long messages: every length up to 1100 and a few far larger ones, structured contents
+    pat = bytes((i * 131 + 7) & 0xFF for i in range(70000))
+    lengths = list(range(0, 1101)) + [4095, 4096, 4097, 65535, 65536, 65537, 70000]
+    for ln in lengths:
+        for m in (pat[:ln], bytes(ln), b"\x01" + bytes(max(0, ln - 1))):
+            if len(m) != ln:
+                continue
+            got = call(m)
+            res.checks += 1
+            if got != serial(m):
+                res.violation("long-message-mismatch", f"crc7 of a {ln}-byte message = {got}, bit-serial reference = {serial(m)}", dict(kind="message", message=list(m[:64]) + ["..."], length=ln))
+                break
+    res.bounds["length_sweep"] = "every length 0..1100 plus 4095-4097, 65535-65537, 70000"
 
     # determinism: the same messages again
     for s in (1, 64, 127):
